@@ -163,7 +163,7 @@ def f64_calls(fn, name):
 
 
 def eval_expr_gates(chk, F):
-    fn = F.find(CORE, "runtime::eval::eval_expr", inline=True, keep=("Option::<T>", "Iterator", "bool::then"))
+    fn = F.find(CORE, "runtime::eval::eval_expr", inline=True, keep=("Option::<T>", "Iterator", "bool>::then"))
     fk = "rink_core::runtime::eval::eval_expr"
     # two-argument functions: same dimensionality of exactly the two arguments
     for name in ("hypot", "atan2"):
@@ -233,7 +233,7 @@ def eval_expr_gates(chk, F):
                     u = ap_str(facts.expand_ap(F, CORE, uap))
                     lit_fn, lit_bb = g, 0
                 if want == "radian":
-                    ok = u.startswith(DIM + "::base_unit(types::base_unit::BaseUnit::new(") and unit_literal(F, lit_fn, lit_bb) == "radian"
+                    ok = u.startswith(DIM + "::base_unit(types::base_unit::BaseUnit::new(") and unit_literal(F, lit_fn, lit_bb, uap if lit_fn is fn else None) == "radian"
                 else:
                     ok = u.startswith(DIM + "::new()")
         chk.decide(ok, "algebra-shape", fk, name + ":result-unit", fn.where(bb),
@@ -250,16 +250,32 @@ def eval_expr_gates(chk, F):
                  "a temperature scale is applied only to a dimensionless operand", "a temperature scale can be applied to a value that already carries a dimension")
 
 
-def unit_literal(F, fn, bb):
-    """The string literal passed to BaseUnit::new nearest (by line) to block bb, from HIR."""
-    h = F.hir_of(fn)
+def unit_literal(F, fn, bb, uap=None):
+    """The string literal passed to BaseUnit::new nearest (by line) to block bb, from HIR.  When the unit's access path is given
+    and contains the BaseUnit::new call, that call's own source line is used (it may lie in a helper that was put back in place)."""
     line = fn.blocks[bb]["term"]["loc"]["line"]
+    hs = [F.hir_of(fn)] if not getattr(fn, "inlined_ids", None) else F.hirs_of(fn)
+    if uap is not None:
+        def find_new(ap):
+            r = ap[0]
+            if r[0] == "call":
+                if r[1].endswith("BaseUnit::new") and isinstance(r[3], int) and r[3] < len(fn.blocks):
+                    return r[3]
+                for a in r[2]:
+                    x = find_new(a)
+                    if x is not None:
+                        return x
+            return None
+        nb = find_new(uap)
+        if nb is not None:
+            line = fn.blocks[nb]["term"]["loc"]["line"]
     best = None
-    for c in H.path_calls(h["body"], "BaseUnit::new"):
-        if c["args"] and c["args"][0].get("k") == "Lit":
-            d = abs(c["line"] - line)
-            if best is None or d < best[0]:
-                best = (d, c["args"][0]["lit"]["v"])
+    for h in hs:
+        for c in H.path_calls(h["body"], "BaseUnit::new"):
+            if c["args"] and c["args"][0].get("k") == "Lit":
+                d = abs(c["line"] - line)
+                if best is None or d < best[0]:
+                    best = (d, c["args"][0]["lit"]["v"])
     return best[1] if best else None
 
 
